@@ -93,6 +93,7 @@ structure S where
   quota : Nat := 65535
   holders : List Nat := []                           -- identifiers holding a quota token on this connection
   wire : List Nat := []                              -- QoS>0 PUBLISH written on this connection, not yet finally acknowledged on it
+  lastPub : Nat := 0                                 -- the latest-initiated QoS>0 publish written on this connection (operations are numbered in initiation order)
 
 def MAX_LIMIT : Nat := 65535
 
@@ -190,18 +191,20 @@ def request (s : S) (op pid : Nat) (k : Kind) (dup : Bool) (body : Nat) : Option
 
 def addWire (w : List Nat) (pid : Nat) : List Nat := if pid ∈ w then w else pid :: w
 
-/-- quota and wire accounting of a QoS>0 PUBLISH entering a write on a live connection -/
-def account (s : S) (pid : Nat) : Option S :=
+/-- quota, wire and order accounting of a QoS>0 PUBLISH of operation `op` entering a write on a live connection: the send queue is kept in
+initiation order (serial numbers, stable sort at a resend), so on one connection PUBLISH packets leave in initiation order -/
+def account (s : S) (op pid : Nat) : Option S :=
   if !s.connected then some s else
+  if op ≤ s.lastPub then none else
   let wire := addWire s.wire pid
-  if pid ∈ s.holders then some { s with wire := wire }
+  if pid ∈ s.holders then some { s with wire := wire, lastPub := op }
   else if s.quota = 0 then none
-  else some { s with wire := wire, holders := pid :: s.holders, quota := s.quota - 1 }
+  else some { s with wire := wire, holders := pid :: s.holders, quota := s.quota - 1, lastPub := op }
 
 def stepPk (s : S) : Out → Option S
   | .publish op qos pid dup body =>
-    if qos = 1 then (request s op pid .pub1 dup body).bind (account · pid)
-    else if qos = 2 then (request s op pid .pub2 dup body).bind (account · pid)
+    if qos = 1 then (request s op pid .pub1 dup body).bind (account · op pid)
+    else if qos = 2 then (request s op pid .pub2 dup body).bind (account · op pid)
     else none
   | .subscribe op pid body => request s op pid .sub ((s.slot pid).isSome) body
   | .unsubscribe op pid body => request s op pid .unsub ((s.slot pid).isSome) body
@@ -228,8 +231,8 @@ def step (s : S) : Ev → Option S
     if (s.known op).isSome then none else some { s with known := upd s.known op (some (k, n)), ops := op :: s.ops }
   | .connUp rm =>
     let lim := rm.getD MAX_LIMIT
-    some { s with connected := true, limit := lim, quota := lim, holders := [], wire := [], slot := fun p => (s.slot p).map Slot.onConnUp }
-  | .connDown => some { s with connected := false, holders := [], wire := [], quota := s.limit }
+    some { s with connected := true, limit := lim, quota := lim, holders := [], wire := [], lastPub := 0, slot := fun p => (s.slot p).map Slot.onConnUp }
+  | .connDown => some { s with connected := false, holders := [], wire := [], quota := s.limit, lastPub := 0 }
   | .wr => if s.writing then none else some { s with writing := true }
   | .pk p => if s.writing then stepPk s p else none
   | .wrOk => if s.writing then some { s with writing := false, slot := fun p => (s.slot p).map Slot.onWrOk } else none
@@ -337,6 +340,15 @@ def wireStep (w : Wire) : Ev → Wire
   | _ => w
 
 def wireOf (tr : List Ev) : Wire := tr.foldl wireStep {}
+
+/-- operations whose QoS 1/2 PUBLISH was written on the current connection, in wire order (read off the events alone) -/
+def pubsStep (st : Bool × List Nat) : Ev → Bool × List Nat
+  | .connUp _ => (true, [])
+  | .connDown => (false, [])
+  | .pk (.publish op _ _ _ _) => if st.1 then (st.1, st.2 ++ [op]) else st
+  | _ => st
+
+def pubsOf (tr : List Ev) : List Nat := (tr.foldl pubsStep (false, [])).2
 
 /-- the list contains events satisfying the predicates, in this order (not necessarily adjacent) -/
 def Chain : List (Ev → Prop) → List Ev → Prop
